@@ -14,7 +14,9 @@ import json
 
 import core
 import docbuild as db
+import clip_pixels as cp
 import extract_c15
+import extract_c15_comp
 from core import err_class
 
 MODES = ["PHOTOSHOP", "PAINT_TOOL_SAI", "CLIP_STUDIO_PAINT", "GIMP", "KRITA"]
@@ -23,16 +25,43 @@ RESTRICTIVE = {"PAINT_TOOL_SAI", "CLIP_STUDIO_PAINT"}
 
 # ---- nested descriptions with flags -------------------------------------------------------------
 # node = (clip: bool, pt: bool, kids: list | None)     kids None = not a group
-def to_nested(nodes, depth=0):
-    """-> docbuild.nested description; the divider key variant of a group is a function of its position."""
+# how the pass-through state of a group is REPRESENTED in its records (the library knows all of these):
+#   position        the divider key variant is a function of the position (the historical default of this harness)
+#   divider         record says NORMAL, section divider says PASS_THROUGH      (what psd-tools writes; Group.new)
+#   record+divider  record says PASS_THROUGH and so does the divider          (what Photoshop writes)
+#   nested          no section divider, nested divider + record PASS_THROUGH
+#   both            both dividers, record NORMAL
+# and, built differently (see `build_world`): api (Group.new + setters), api-set (opened as NORMAL groups, switched
+# to pass-through through the setter); every one of them optionally "+reopened" (saved by psd-tools, opened again).
+RECORD_REPS = ["divider", "record+divider", "nested", "both"]
+REPS = ["position"] + RECORD_REPS + ["api", "api-set"]
+ALL_REPS = REPS + [r + "+reopened" for r in REPS]
+
+
+def to_nested(nodes, depth=0, rep="position"):
+    """-> docbuild.nested description; with rep="position" the divider key variant of a group is a function of its
+    position, else the representation named by `rep` is used for every group."""
     out = []
     for k, (clip, pt, kids) in enumerate(nodes):
         blend = "PASS_THROUGH" if pt else "NORMAL"
         if kids is None:
             out.append({"clip": clip, "blend": blend})
         else:
-            via = ("sds", "both", "nsds")[(k + depth) % 3]
-            out.append({"g": to_nested(kids, depth + 1), "clip": clip, "blend": blend, "via": via})
+            d = {"g": to_nested(kids, depth + 1, rep), "clip": clip, "blend": blend}
+            if rep == "position":
+                d["via"] = ("sds", "both", "nsds")[(k + depth) % 3]
+            elif rep == "divider":
+                d["via"] = "sds"
+            elif rep == "record+divider":
+                d["via"] = "sds"
+                d["rec_blend"] = blend
+            elif rep == "nested":
+                d["via"] = "nsds"
+            elif rep == "both":
+                d["via"] = "both"
+            else:
+                raise ValueError(rep)
+            out.append(d)
     return out
 
 
@@ -350,12 +379,23 @@ def apply_op(w, op, rng):
         finally:
             w.called("Layer.clipping_layer.setter")
         return {"op": op, "layer": order[id(l)], "value": v}
-    if op == "set_blend":
+    if op == "set_blend" or op.startswith("blend@"):
         gs = [g for g in groups if g is not img]
         if not gs:
             return None
-        g = rng.choice(gs)
-        v = BlendMode.NORMAL if g.blend_mode == BlendMode.PASS_THROUGH else BlendMode.PASS_THROUGH
+        if op.startswith("blend@"):
+            # deterministic form: blend@<k>=<NAME> - the k-th group in pre-order (modulo their number)
+            k_, name_ = op[len("blend@"):].split("=")
+            g = gs[int(k_) % len(gs)]
+            v = BlendMode[name_]
+            op = "set_blend"
+        else:
+            g = rng.choice(gs)
+            others = [m for m in BlendMode if m != BlendMode.PASS_THROUGH]
+            if g.blend_mode == BlendMode.PASS_THROUGH:
+                v = rng.choice(others)
+            else:
+                v = BlendMode.PASS_THROUGH if rng.random() < 0.6 else rng.choice(others)
         try:
             g.blend_mode = v
         finally:
@@ -506,13 +546,68 @@ class Tracer:
         self.steps.append((row, MODES.index(self.img.compatibility_mode.name), self.tree(), st))
 
 
-def run_history(recipe_nodes, mode, ops, seed, want_trace=False):
-    """Rebuild the document, apply `ops` (names) with arguments from Random(seed); after each op compare
-    the stored relation with the spec on the current tree and with the same arrangement freshly opened.
+def build_world(nodes, rep="position"):
+    """The document of an edit history, with the pass-through state of its groups represented as `rep` says."""
+    import io
+    from PIL import Image
+    from psd_tools import PSDImage
+    from psd_tools.api.layers import Group, PixelLayer
+    from psd_tools.constants import BlendMode
+    again = rep.endswith("+reopened")
+    base = rep[:-len("+reopened")] if again else rep
+    if base == "api":
+        # everything through the public API: Group.new (pass-through by construction), the blend-mode and the
+        # clipping setters
+        img = PSDImage.new("RGB", (4, 4))
+
+        def add(parent, items):
+            for clip, pt, kids in items:
+                if kids is None:
+                    l = PixelLayer.frompil(Image.new("RGB", (2, 2), (9, 8, 7)), img, "leaf")
+                    if l._parent is None:
+                        parent.append(l)
+                    elif l._parent is not parent:
+                        l.move_to_group(parent)
+                    if pt:
+                        l.blend_mode = BlendMode.PASS_THROUGH
+                else:
+                    l = Group.new("group", parent=parent)
+                    add(l, kids)
+                    if not pt:
+                        l.blend_mode = BlendMode.NORMAL
+                if clip:
+                    l.clipping_layer = True
+        add(img, nodes)
+    elif base == "api-set":
+        # opened with every group NORMAL, then switched to pass-through through the setter
+        def strip(items):
+            return [(c, p and k is None, None if k is None else strip(k)) for c, p, k in items]
+        img, _, _ = db.make_image(db.nested(to_nested(strip(nodes), rep="divider")))
+
+        def setpt(group, items):
+            for l, (c, p, k) in zip(list(group._layers), items):
+                if k is not None:
+                    setpt(l, k)
+                    if p:
+                        l.blend_mode = BlendMode.PASS_THROUGH
+        setpt(img, nodes)
+    else:
+        img, _, _ = db.make_image(db.nested(to_nested(nodes, rep=base)))
+    if again:
+        buf = io.BytesIO()
+        img.save(buf)
+        img = PSDImage.open(io.BytesIO(buf.getvalue()))
+    return img
+
+
+def run_history(recipe_nodes, mode, ops, seed, want_trace=False, rep="position"):
+    """Rebuild the document (groups represented as `rep` says), set the compatibility mode FIRST, apply `ops`
+    (names) with arguments from Random(seed); after each op compare the stored relation with the spec on the
+    current tree and with the same arrangement freshly opened.
     Returns (index of first stale op | None, log, diff[, trace])."""
     import random
     rng = random.Random(seed)
-    img, _, _ = db.make_image(db.nested(to_nested(recipe_nodes)))
+    img = build_world(recipe_nodes, rep)
     w = World(img)
     tr = Tracer(img)
     tree0 = tr.tree()
@@ -544,10 +639,113 @@ def run_history(recipe_nodes, mode, ops, seed, want_trace=False):
     return res
 
 
+# arrangement of the blend-mode switch histories: a pass-through group G with a clipping run above it, a
+# pass-through group K that holds a nested pass-through group H with a clipping layer above it, a clipping layer above K
+TOGGLE_BASE = [(False, False, None),
+               (False, True, [(False, False, None), (True, False, None)]),
+               (True, False, None), (True, False, None),
+               (False, True, [(False, False, None), (False, True, [(False, False, None)]), (True, False, None)]),
+               (True, False, None)]
+# the same with the groups NOT pass-through at the start (first switch goes the other way)
+TOGGLE_BASE_ISO = [(c, False, None if k is None else [(c2, False, None if k2 is None else [(c3, False, k3) for c3, _, k3 in k2])
+                                                      for c2, _, k2 in k]) for c, _, k in TOGGLE_BASE]
+
+
+def toggle_ops(first=0, stride=1):
+    """[blend@g=X, blend@g=PASS_THROUGH] for every blend mode X other than pass-through, the group g rotating over
+    the three groups of TOGGLE_BASE: every group gets a first, a second, ... switch in both directions."""
+    from psd_tools.constants import BlendMode
+    others = [m.name for m in BlendMode if m != BlendMode.PASS_THROUGH]
+    ops = []
+    for i, x in enumerate(others[first::stride]):
+        ops += ["blend@%d=%s" % (i % 3, x), "blend@%d=PASS_THROUGH" % (i % 3)]
+    return ops
+
+
+def toggle_plans(quick):
+    plans = []
+    for mi, mode in enumerate(MODES):
+        for ri, rep in enumerate(ALL_REPS):
+            strict = mode in RESTRICTIVE
+            # restrictive modes: every blend mode; the others (where pass-through does not matter): a third of them
+            stride = 1 if (strict or not quick) else 3
+            plans.append((TOGGLE_BASE, mode, toggle_ops((mi + ri) % stride, stride), 0, rep))
+            # non pass-through -> non pass-through, the same value twice, starting from isolated groups
+            plans.append((TOGGLE_BASE_ISO, mode,
+                          ["blend@0=MULTIPLY", "blend@0=PASS_THROUGH", "blend@0=PASS_THROUGH", "blend@0=SCREEN", "blend@0=SCREEN",
+                           "blend@2=PASS_THROUGH", "blend@1=PASS_THROUGH", "blend@2=NORMAL", "blend@1=NORMAL", "blend@0=NORMAL",
+                           "blend@0=PASS_THROUGH", "blend@0=NORMAL"], 0, rep))
+    return plans
+
+
+def _fixture_toggles(ctx, quick):
+    """Files of the test corpus that hold groups (written by Photoshop and others: record and divider as THEY wrote
+    them): per compatibility mode, set first, every group switched pass-through <-> NORMAL / MULTIPLY twice; after
+    every step the stored relation against the specification on the current tree and the fresh-open oracle."""
+    from psd_tools import PSDImage
+    pf = core.REPO / "tests" / "psd_files"
+    files = sorted(p for p in pf.glob("*.psd") if p.stat().st_size < (150_000 if quick else 3_000_000))
+    cands = []
+    for path in files:
+        try:
+            probe = PSDImage.open(str(path))
+            ngroups = sum(1 for l in db.walk(probe) if hasattr(l, "_layers"))
+            has_clip = any(l.clipping_layer for l in db.walk(probe))
+        except Exception as e:  # noqa
+            ctx.hist("fixture_toggle", "not-opened:" + err_class(e))
+            continue
+        if ngroups:
+            cands.append((not has_clip, path.name, ngroups))
+    cands.sort()
+    used = 0
+    for _, name, ngroups in cands[:(8 if quick else len(cands))]:
+        used += 1
+        ng = min(ngroups, 4 if quick else 12)
+        for mode in (["PAINT_TOOL_SAI", "CLIP_STUDIO_PAINT", "PHOTOSHOP"] if quick else MODES):
+            res = run_fixture_toggle(name, mode, ng)
+            ctx.count(("fixture-toggle", name, mode), nontrivial=True)
+            ctx.hist("fixture_toggle", "run")
+            if res is not None:
+                step, diff = res
+                ctx.fail("C15/stale-after/set_blend", "clip_layers / has_clip_target not recomputed after set_blend",
+                         {"kind": "fixture-toggle", "fixture": name, "mode": mode, "groups": ng, "upto": step},
+                         diff, "the specification evaluated on the current tree (and the same arrangement freshly opened)",
+                         how="search:edit-history")
+                break
+    ctx.extra["fixture_toggle_files"] = used
+
+
+def run_fixture_toggle(name, mode, ngroups, upto=None):
+    from psd_tools import PSDImage
+    from psd_tools.constants import BlendMode
+    img = PSDImage.open(str(core.REPO / "tests" / "psd_files" / name))
+    set_mode(img, mode)
+    groups = [l for l in db.walk(img) if hasattr(l, "_layers")][:ngroups]
+    step = 0
+    for rnd, other in enumerate((BlendMode.NORMAL, BlendMode.MULTIPLY)):
+        for g in groups:
+            seq = [other, BlendMode.PASS_THROUGH] if g.blend_mode == BlendMode.PASS_THROUGH else [BlendMode.PASS_THROUGH, other]
+            for v in seq:
+                g.blend_mode = v
+                priv = private_relation(img)
+                diff = None
+                if not has_leaf_pt(describe(img)):
+                    diff = compare_relation(img)
+                if diff is None:
+                    diff = compare_fresh(img, priv)
+                if diff is not None:
+                    return step, diff
+                if upto is not None and step >= upto:
+                    return None
+                step += 1
+    return None
+
+
 # ---- the check -------------------------------------------------------------------------------------
 def run(ctx: core.Run):
     gen = ctx.regenerate(extract_c15.gen_clip_modes)
     gen2 = ctx.regenerate(extract_c15.gen_clip_current)
+    gen3 = ctx.regenerate(extract_c15_comp.gen_clip_compositor)
     ctx.prove(["PsdVerif.Props.C15"])
     ctx.trusted_base += [
         "Lean 4.33 kernel; axioms allowed: propext, Classical.choice, Quot.sound (audited per theorem)",
@@ -649,6 +847,8 @@ def run(ctx: core.Run):
     # compositor honours target / no target (composite/__init__.py:231): a clipping layer is skipped in the
     # ordinary pass exactly when it has a target
     _check_compositor_gate(ctx)
+    # ... and the same in pixels: default and caller-supplied layer filters, nested groups, base-less clipping layers
+    _check_compositor_pixels(ctx, rng)
 
     # ============ part 2: kept current after edits (search on the real code) and ======================
     # ============ part 3: the same histories on the state model (correspondence) ======================
@@ -664,51 +864,63 @@ def run(ctx: core.Run):
     base_b = [(True, False, None), (True, False, None),
               (False, True, [(True, False, None), (False, False, None), (True, False, None)]),
               (True, False, None), (False, False, [(True, False, None), (True, False, None)]), (True, False, None)]
-    plans = []
+    plans = []          # (nodes, mode, ops, seed, representation of the groups)
     for op in OPS:
         for s in range(12 if quick else 60):
             plans.append((base if s % 4 < 2 else base_b, MODES[s % len(MODES)] if s % 3 else "PAINT_TOOL_SAI", [op],
-                          rng.getrandbits(30)))
+                          rng.getrandbits(30), "position"))
     for m1 in MODES:
         for m2 in MODES:
-            plans.append((base_b, m1, ["set_compat=" + m2], rng.getrandbits(30)))
+            plans.append((base_b, m1, ["set_compat=" + m2], rng.getrandbits(30), "position"))
+    # blend-mode switches of groups: the mode is set BEFORE the edits, the pass-through state of the groups is
+    # represented in every way the library knows (ALL_REPS), every group is switched pass-through <-> every other
+    # blend mode in both directions, repeatedly (first, second, ... switch of the same group), fresh-open oracle
+    # after every step. Seed-independent.
+    plans += toggle_plans(quick)
     for c in corp:
         if c.get("kind") == "history":
-            plans.insert(0, (_nodes_from_json(c["nodes"]), c["mode"], c["ops"], c["seed"]))
-    for _ in range(n_hist):
+            plans.insert(0, (_nodes_from_json(c["nodes"]), c["mode"], c["ops"], c["seed"], c.get("rep", "position")))
+    for k_ in range(n_hist):
         nodes = random_nodes(rng, rng.randrange(0, 3), [rng.randrange(3, 14)])
-        plans.append((nodes, rng.choice(MODES), [rng.choice(OPS) for _ in range(hist_len)], rng.getrandbits(30)))
+        plans.append((nodes, rng.choice(MODES), [rng.choice(OPS) for _ in range(hist_len)], rng.getrandbits(30),
+                      ALL_REPS[(k_ // 2) % len(ALL_REPS)] if k_ % 2 else "position"))
     traces = []
-    for nodes, mode, ops, seed in plans:
-        k, log, diff, trace = run_history(nodes, mode, ops, seed, want_trace=True)
-        traces.append(((nodes, mode, list(ops), seed), trace))
-        ctx.count(("history", tree_token(nodes), mode, tuple(ops), seed), nontrivial=True)
+    for nodes, mode, ops, seed, rep in plans:
+        k, log, diff, trace = run_history(nodes, mode, ops, seed, want_trace=True, rep=rep)
+        traces.append(((nodes, mode, list(ops), seed, rep), trace))
+        ctx.count(("history", tree_token(nodes), mode, tuple(ops), seed, rep), nontrivial=True)
+        ctx.hist("history_groups_as", rep)
         for d in log:
             if d:
                 ctx.hist("edit_op", d.get("op") if "raised" not in d else d["op"] + "!" + d["raised"])
         if k is not None:
             op = ops[k]
+            opname = op.split("=")[0].split("@")[0]
+            opname = {"blend": "set_blend"}.get(opname, opname)
             # shrink: drop earlier operations while the same step still goes stale (argument draws are
             # re-seeded per history, so a shorter history is simply re-run)
             prefix = list(ops[:k])
-            if prefix and op not in stale_seen:
+            if prefix and opname not in stale_seen:
                 def still(sub):
-                    kk, _, _ = run_history(nodes, mode, sub + [op], seed)
+                    kk, _, _ = run_history(nodes, mode, sub + [op], seed, rep=rep)
                     return kk == len(sub)
                 if still([]):
                     prefix = []
                 else:
                     prefix = core.ddmin(prefix, still) if still(prefix) else prefix
-            stale_seen[op] = True
+            stale_seen[opname] = True
             if len(prefix) < k:
-                k2, _, diff2 = run_history(nodes, mode, prefix + [op], seed)
+                k2, _, diff2 = run_history(nodes, mode, prefix + [op], seed, rep=rep)
                 if k2 == len(prefix):
                     ops, k, diff = prefix + [op], k2, diff2
-            opname = op.split("=")[0]
             ctx.fail(f"C15/stale-after/{opname}", f"clip_layers / has_clip_target not recomputed after {opname}",
-                     {"kind": "history", "nodes": _nodes_to_json(nodes), "mode": mode, "ops": ops[:k + 1], "seed": seed},
+                     {"kind": "history", "nodes": _nodes_to_json(nodes), "mode": mode, "ops": ops[:k + 1], "seed": seed,
+                      "rep": rep},
                      diff, "the specification evaluated on the current tree (and the same arrangement freshly opened)",
                      how="search:edit-history")
+
+    # the same switches on the groups of real files (Photoshop's own representation), every mode set first
+    _fixture_toggles(ctx, quick)
 
     # part 3: one driver line = one history; the stored relation after the constructor and after every public call
     reqs = []
@@ -720,8 +932,8 @@ def run(ctx: core.Run):
     rows_seen = set()
     for (plan, (tree0, state0, steps)), ans in zip(traces, drv.batch(reqs)):
         ctx.corr_cases += 1
-        nodes, mode, ops, seed = plan
-        case = {"kind": "history", "nodes": _nodes_to_json(nodes), "mode": mode, "ops": ops, "seed": seed}
+        nodes, mode, ops, seed, rep = plan
+        case = {"kind": "history", "nodes": _nodes_to_json(nodes), "mode": mode, "ops": ops, "seed": seed, "rep": rep}
         if ans[0] != "ok":
             ctx.disagree("the state model rejected a history (clipst.hist)", dict(case, answer=list(ans)[:3]))
             continue
@@ -765,7 +977,9 @@ def run(ctx: core.Run):
         "the real code (part 2) and the state model is run against every public call of those histories (part 3)",
         "defect found by part 2 with the fresh-open oracle and fixed in the repository (b2a7dfa): the Layer.blend_mode setter did "
         "not recompute although the pass tests the blend mode of every layer",
-        "stated in DESIGN, not proved here: compositor_honours - observed dynamically on pixel documents (compositor gate)",
+        "compositor_honours: the gate of Compositor.apply and the group box of Compositor._bbox are modelled (Model/ClipCompositor.lean), "
+        "tied to the source (compositor_gate_tied) and proved (compositor_honours_gate, group_box_spans_accepted); that the pixels "
+        "follow is observed dynamically (compositor gate by call counts, pixel documents under default and custom layer filters)",
         "defect found by part 2 and fixed in the repository (fix: recompute clipping relationships after structural edits "
         "and group blend-mode changes): every structural edit left clip_layers/_has_clip_target stale",
     ]
@@ -775,8 +989,10 @@ def run(ctx: core.Run):
                      "_clear_clipping_layers defaults", "CompatibilityMode members",
                      "the stored relation as state: clear over the visited layers, then the pass (Model/ClipState.lean)",
                      "every public mutator as a list of effects (raw mutations, recomputations with owner and tests) from the source",
-                     "the constructor's final recomputation"],
-        "search_only": ["compositor gate at composite/__init__.py:231"],
+                     "the constructor's final recomputation",
+                     "the compositor's gate (early returns of Compositor.apply), _apply_clip_layers' iteration, the group box of "
+                     "Compositor._bbox under a caller-supplied filter (regenerated, Generated/ClipCompositor.lean)"],
+        "search_only": ["what the compositor paints (pixel observation: painter oracle + cleared-flag twin; call counts of the gate)"],
         "abstract": ["what a structural edit does to the tree (any new tree in the theorem; read off the real objects in the "
                      "correspondence)"],
         "opaque": ["pixels of the composite (C11)"],
@@ -870,6 +1086,121 @@ def _check_compositor_gate(ctx):
     ctx.extra["compositor_gate_cases"] = 2 * len(arrangements)
 
 
+PIXEL_MODES = ["PHOTOSHOP", "PAINT_TOOL_SAI", "CLIP_STUDIO_PAINT"]
+
+
+def pixel_docs(rng, quick):
+    """Arrangements for the pixel observation (node descriptions with at least one leaf, at most 9)."""
+    docs = []
+    for n in range(1, 3):
+        for k, flags in enumerate(child_lists(n, LEAF_OPTS + GROUP_OPTS)):
+            docs.append(("flat", nodes_of(flags, k + n)))
+    # the list inside a group with neighbours: base-less clipping layers at the bottom of a NESTED group, clipping
+    # layers above a (nested) pass-through group
+    for k, flags in enumerate(child_lists(1, LEAF_OPTS + GROUP_OPTS)):
+        inner = nodes_of(flags, k + 1) + [(True, False, None)]
+        for gclip, gpt in ((False, False), (False, True), (True, True), (True, False)):
+            docs.append(("nested", [(False, False, None), (gclip, gpt, inner), (True, False, None)]))
+            docs.append(("nested2", [(True, False, None), (False, gpt, [(gclip, not gpt, inner), (True, False, None), (False, False, None)])]))
+    docs.append(("nested", [(False, False, None),
+                            (False, False, [(True, False, None), (False, False, None), (True, False, None)]),
+                            (False, False, [(False, True, [(True, False, None), (False, False, None)]), (True, False, None), (False, False, None)]),
+                            (False, False, None)]))
+    docs.append(("nested", [(False, True, [(True, False, None), (True, False, None)]), (True, False, None)]))
+    for _ in range(30 if quick else 400):
+        docs.append(("random", random_nodes(rng, rng.randrange(1, 3), [rng.randrange(2, 9)])))
+    return [(lab, nd) for lab, nd in docs if 1 <= cp.leaves_of(nd) <= 9]
+
+
+def pixel_case(nodes, mode, hidden, way, kind, target=None, twin=False, steps=()):
+    """One pixel observation. way: 'api' | 'api-mode-last' | 'reopened'. steps: [(group number, blend name)] applied
+    through the setter before observing. -> None | difference."""
+    from psd_tools.constants import BlendMode
+    psd, pre = cp.build(nodes, hidden, mode, mode_first=(way != "api-mode-last"))
+    if way == "reopened":
+        psd = cp.reopen(psd)
+        pre = list(db.walk(psd))
+    if steps:
+        groups = [l for l in pre if hasattr(l, "_layers")]
+        for g, name in steps:
+            groups[g % len(groups)].blend_mode = BlendMode[name]
+        nodes = describe(psd)
+    tgt = None if target is None else pre[target]
+    got = cp.observe(psd, nodes, kind, tgt)
+    want = cp.painter(nodes, hidden, mode, kind, spec_level, target)
+    diff = cp.first_difference(got, want, nodes)
+    if diff is not None:
+        return dict(diff, oracle="painter")
+    if twin:
+        psd2, pre2 = cp.build(cp.clear_baseless(nodes, mode, spec_level), hidden, mode)
+        got2 = cp.observe(psd2, nodes, kind, None if target is None else pre2[target])
+        diff = cp.first_difference(got, got2, nodes)
+        if diff is not None:
+            return dict(diff, oracle="twin with the clipping flag cleared on the base-less clipping layers")
+    return None
+
+
+def _check_compositor_pixels(ctx, rng):
+    """`compositor_honours` in pixels: a clipped layer is drawn inside its base only, a clipping layer with no base
+    (bottom of a group - nested groups included -, above a pass-through group in the restrictive modes) is composited
+    as an ordinary layer; under the default layer filter and under caller-supplied ones (the same predicate as a
+    function, accept-all, the bare visible flag), for the document and for every group composited by itself, as built
+    through the API (mode set first / last), after save + open, and after blend-mode switches of the groups."""
+    quick = ctx.quick
+    docs = pixel_docs(rng, quick)
+    n_cases = 0
+    failed = set()
+
+    def judge(label, nodes, mode, hidden, way, kind, target=None, twin=False, steps=()):
+        nonlocal n_cases
+        n_cases += 1
+        inp = {"kind": "pixels", "nodes": _nodes_to_json(nodes), "mode": mode, "hidden": sorted(hidden), "way": way,
+               "filter": kind, "target": target, "twin": twin, "steps": [list(x) for x in steps]}
+        try:
+            diff = pixel_case(nodes, mode, hidden, way, kind, target, twin, steps)
+        except Exception as e:  # noqa
+            diff = {"raised": err_class(e), "oracle": "composite() raises"}
+        ctx.count(("pixels", tree_token(nodes), mode, tuple(sorted(hidden)), way, kind, target, tuple(steps)),
+                  nontrivial=any(c for c, _, _ in _flatten(nodes)))
+        ctx.hist("pixel_filter", kind)
+        if diff is None:
+            return True
+        baseless = cp.has_baseless(nodes, mode, spec_level)
+        what = "base-less-clipping-layer" if baseless else "clipped-layer"
+        sig = "C15/compositor-pixels/%s/%s/%s" % (what, "default-filter" if kind in ("default", "Layer.is_visible") else "custom-filter",
+                                                    "after-set_blend" if steps else ("document" if target is None else "group"))
+        if sig not in failed:
+            failed.add(sig)
+            ctx.fail(sig, "the composite does not show the clipping relation of the current tree "
+                          "(a clipped layer inside its base only; a clipping layer without a base as an ordinary layer)",
+                     inp, diff, "the painter oracle / the twin document")
+        return False
+
+    for i, (label, nodes) in enumerate(docs):
+        npos = sum(1 for _ in _flatten(nodes))
+        hidden = set() if i % 3 else {i % npos}
+        ctx.hist("pixel_stream", label)
+        for mi, mode in enumerate(PIXEL_MODES):
+            way = ("api", "reopened", "api-mode-last")[(i + mi) % 3]
+            for kind in cp.FILTERS:
+                judge(label, nodes, mode, hidden, way, kind, twin=(kind in ("default", "lambda-accept-all")
+                                                                     and cp.has_baseless(nodes, mode, spec_level)))
+            if not hidden:
+                gpos = [k for k, nd in enumerate(_flatten(nodes)) if nd[2] is not None]
+                for t in gpos[:2 if quick else 6]:
+                    for kind in ("default", "lambda-accept-all"):
+                        judge(label, nodes, mode, hidden, way, kind, target=t)
+    # blend-mode switches seen in pixels (the compositor reads the stored relation); only pass-through <-> NORMAL here:
+    # the painter oracle knows opaque layers painted over each other, not blended colours
+    for mode in PIXEL_MODES:
+        for way in ("api", "reopened"):
+            for steps in ([(0, "NORMAL")], [(0, "NORMAL"), (2, "NORMAL"), (0, "PASS_THROUGH"), (0, "NORMAL")],
+                          [(1, "NORMAL"), (2, "NORMAL"), (1, "PASS_THROUGH"), (2, "PASS_THROUGH"), (2, "NORMAL")]):
+                for kind in ("default", "lambda-accept-all"):
+                    judge("toggle", TOGGLE_BASE, mode, set(), way, kind, steps=tuple(steps))
+    ctx.extra["compositor_pixel_cases"] = n_cases
+
+
 def _flatten(nodes):
     for n in nodes:
         yield n
@@ -894,7 +1225,8 @@ def replay(ctx, data):
     inp = data.get("input") or {}
     print("replaying", data.get("signature"))
     if inp.get("kind") == "history":
-        k, log, diff = run_history(_nodes_from_json(inp["nodes"]), inp["mode"], inp["ops"], inp["seed"])
+        k, log, diff = run_history(_nodes_from_json(inp["nodes"]), inp["mode"], inp["ops"], inp["seed"],
+                                   rep=inp.get("rep", "position"))
         print("ops applied:", json.dumps(log))
         print("first stale step:", k, "difference:", diff)
     elif inp.get("kind") == "arrangement":
@@ -904,6 +1236,15 @@ def replay(ctx, data):
         print("tree:", tree_token(nodes), "mode:", inp["mode"])
         print("implementation:", entries_of(img))
         print("difference from the specification:", compare_relation(img))
+    elif inp.get("kind") == "fixture-toggle":
+        print("fixture:", inp["fixture"], "mode:", inp["mode"], "first stale step / difference:",
+              run_fixture_toggle(inp["fixture"], inp["mode"], inp["groups"]))
+    elif inp.get("kind") == "pixels":
+        diff = pixel_case(_nodes_from_json(inp["nodes"]), inp["mode"], set(inp["hidden"]), inp["way"], inp["filter"],
+                          inp.get("target"), inp.get("twin", False), tuple(tuple(x) for x in inp.get("steps", ())))
+        print("arrangement:", tree_token(_nodes_from_json(inp["nodes"])), "mode:", inp["mode"], "hidden:", inp["hidden"],
+              "built:", inp["way"], "layer_filter:", inp["filter"], "target:", inp.get("target"), "steps:", inp.get("steps"))
+        print("first pixel that differs:", diff)
     elif inp.get("kind") == "gate":
         res = gate_observe(tuple(inp["arrangement"]), (inp["mode"],))
         print("arrangement:", inp["arrangement"], "mode:", inp["mode"])
